@@ -21,7 +21,7 @@ from . import c13
 LEVEL = "exploration"
 
 COMMENT_CHARS = ["C", "c", "*", "!", "d", "D"]
-CONT_CHARS = ["&", "1", "+", "$", "x", "A", "!", "*"]   # any character but blank and zero may mark a continuation
+CONT_CHARS = ["&", "1", "+", "$", "x", "A", "!", "*", "#"]   # any character but blank and zero may mark a continuation
 ALL = {**programs.PROGRAMS, **programs.LABEL_PROGRAMS}
 CLASSIFY_ONLY = programs.NODECL_PROGRAMS
 
